@@ -453,9 +453,13 @@ P_C20_ResetRacesAreStreamErrors ==
      /\ (Has(Pre, F1.sid) => Pre.streams[F1.sid].st = "CLOSED")
      /\ (F1.t = "DATA" => (FclOf(F1) <= Pre.iw.cur /\ FclOf(F1) <= Pre.mif))
      \* a well-formed header block the decoder accepts (anything else is the peer's error, not a race)
-     /\ (F1.t = "HEADERS" => LET h == FrameTokens(F1) IN
+     /\ (F1.t = "HEADERS" => LET h == FrameTokens(F1)
+                                  \* the frame as the decoder gets it (a block of the harness peer carries its pending table-size updates)
+                                  g == LET f0 == ResolveFrame(F1, Pre) IN
+                                       IF "tsu" \in DOMAIN f0 THEN f0 ELSE f0 @@ [tsu |-> IF f0.blk = "bad" THEN <<>> ELSE EncTsu(Pre.penc)]
+                              IN
             /\ F1.blk = "ok" /\ ~(IsInformational(h) /\ F1.es)
-            /\ (Pre.hdrCap < 0 \/ ListSize(h) <= Pre.hdrCap)
+            /\ DecodeHP(Pre, g).x = OK          \* table-size signalling and the header-list cap included
             /\ last.p.r.c \notin {"ProtocolError"} \/ ~Pre.dl)
      /\ ~Pre.dl /\ last.p.r.c # "TooManyStreamsError") =>
      /\ ROk
